@@ -31,9 +31,14 @@ M31 = {
 }
 # sub-universes of U(4 states, 2 labels) (32 edges)
 M42 = {
- 'chain':  emask(4, 2, lambda a, q, r: (a == 0 and r == q + 1) or (a == 0 and q == r) or (a == 1 and abs(q - r) <= 1 and q != r)),
- 'fan':    emask(4, 2, lambda a, q, r: (a == 0 and q < 2 and r >= 2) or (a == 1 and q >= 2)),
+ 'ring':   emask(4, 2, lambda a, q, r: (a == 0 and r == (q + 1) % 4) or (a == 0 and q == r and q < 2) or (a == 1 and abs(q - r) == 1)),   # 12 edges
+ 'updown': emask(4, 2, lambda a, q, r: (a == 0 and r == q + 1) or (a == 1 and r == q - 1) or (a == 1 and q == r) or (a == 0 and q == 3 and r == 0)),   # 11 edges
+ 'fan':    emask(4, 2, lambda a, q, r: (a == 0 and q < 2 and r >= 2) or (a == 1 and q >= 2)),   # 12 edges
 }
+M33_ROT  = emask(3, 3, lambda a, q, r: r == (q + a) % 3 or (a == 1 and r == q))                # 12 of the 27 edges of 3 states x 3 labels
+M51_BAND = emask(5, 1, lambda a, q, r: abs(q - r) <= 1)                                         # 13 of the 25 edges of 5 states x 1 label
+M51_WIDE = emask(5, 1, lambda a, q, r: abs(q - r) <= 1 or r == (q + 2) % 5)                     # 18 edges
+HEAVY = {'_heavy': 1, '_mem_gb': 16, '_time': 2400}
 
 QUICK = [
   # no initial partition: greatest simulation preorder
@@ -44,27 +49,30 @@ QUICK = [
   LTS(2, 3, 0),                               # 12 + 2, three labels
   LTS(3, 1, 0, CT=1),                         # number of states determined by the edges (1..3)
   LTS(3, 2, 0, EMASK=M32['src']), LTS(3, 2, 0, EMASK=M32['dst']), LTS(3, 2, 0, EMASK=M32['noloop']), LTS(3, 2, 0, EMASK=M32['a+loop']),
+  LTS(3, 3, 0, EMASK=M33_ROT, OUTSYM=0), LTS(5, 1, 0, EMASK=M51_BAND),
+  LTS(4, 2, 0, EMASK=M42['ring'], OUTSYM=0), LTS(4, 2, 0, EMASK=M42['updown'], OUTSYM=0), LTS(4, 2, 0, EMASK=M42['fan'], OUTSYM=0),
   # initial partition + preorder on the blocks
   LTS(2, 1, 1, MULT=1, REV=1),                # 8 + 2 + 1 + 1 + 2
   LTS(2, 2, 1, REV=1),                        # 8 + 2 + 1 + 1 + 2
   LTS(3, 1, 1, EMASK=M31['noloop'], REV=1), LTS(3, 1, 1, EMASK=M31['fwd'], OUTSYM=0), LTS(3, 1, 1, EMASK=M31['bwd'], OUTSYM=0),
+  LTS(3, 1, 1, REV=1),                        # 9 + 2 + 3 + 1 + 6: every 3-state single-label system with every partition/preorder
+  LTS(3, 2, 1, EMASK=M32['src'], OUTSYM=0),   # 12 + 3 + 6
 ]
 THOROUGH = QUICK + [
-  LTS(3, 2, 0, _heavy=1, _mem_gb=16, _time=1500),                                       # all 18 edges + 2
+  LTS(3, 2, 0, **HEAVY),                                                                 # all 18 edges + 2
   LTS(3, 2, 0, EMASK=M32['loop+b']),
-  LTS(3, 1, 1, REV=1, _heavy=1, _mem_gb=16, _time=1500),                                # 9 + 2 + 3 + 1 + 6
   LTS(2, 2, 1, MULT=1, REV=1),
-  LTS(3, 2, 1, EMASK=M32['src'], OUTSYM=0, _heavy=1, _mem_gb=16, _time=1500), LTS(3, 2, 1, EMASK=M32['dst'], OUTSYM=0, _heavy=1, _mem_gb=16, _time=1500),
-  LTS(4, 2, 0, EMASK=M42['chain'], OUTSYM=0), LTS(4, 2, 0, EMASK=M42['fan'], OUTSYM=0),
+  LTS(5, 1, 0, EMASK=M51_WIDE, OUTSYM=0),
+  LTS(3, 2, 1, EMASK=M32['dst'], OUTSYM=0, **HEAVY), LTS(3, 2, 1, EMASK=M32['noloop'], OUTSYM=0, **HEAVY),
 ]
 
 CHECKS = {
  'C16': {
   'level': 'model_checking',
   'explanation': 'ExplicitLTS::addTransition/init/computeSimulation executed symbolically on every labelled transition system whose edges are drawn from the edge universe of the configuration (presence bit per edge; with MULT two bits per edge = parallel edges and varied adjacency-list order), with a symbolic output size, and (MODE 1) a symbolic partition of the states into blocks (all set partitions, both block orders) with a symbolic reflexive-transitive relation on the blocks; the returned BinaryRelation is read with get(q,r) for all q,r below the output size and compared with a naive greatest-fixpoint oracle of the simulation definition started from the induced state relation (full relation without partition); size() must equal the output size.',
-  'bounds': {'quick': 'LTSs over <=4 states and <=3 labels: 2 states x 1..3 labels (parallel edges), 3 states x 1 label (parallel edges; also with the state count following from the edges), 4 states x 1 label, four 12-edge sub-universes of 3 states x 2 labels; with initial partition/preorder: 2 states x 1..2 labels, 3 states x 1 label on three 6-edge sub-universes (all 5 set partitions, all preorders on the blocks); output size symbolic in 0..|Q| (12..21 free bits per query)',
-             'thorough': 'as quick plus the complete 3 states x 2 labels universe (18 edge bits), the complete 3 states x 1 label universe with partition/preorder, 3 states x 2 labels sub-universes with partition/preorder, two 4 states x 2 labels sub-universes'},
-  'outside': 'more than 4 states or 3 labels; 3-state/2-label and 4-state systems only inside the listed sub-universes in the quick tier; edge multiplicity > 2; output sizes larger than the number of states; partitions with empty blocks and block relations that are not reflexive/transitive (excluded by the documented assertions of the engine); row sizes of the shared counters other than 31 (needs > 4000 states)',
+  'bounds': {'quick': 'LTSs over <=5 states and <=3 labels. Without partition: 2 states x 1..3 labels (1..2 labels with parallel edges), 3 states x 1 label (parallel edges; also with the state count following from the edges), 4 states x 1 label, four 12-edge sub-universes of 3 states x 2 labels, one 12-edge sub-universe of 3 states x 3 labels, three 11..12-edge sub-universes of 4 states x 2 labels, a 13-edge band of 5 states x 1 label. With initial partition/preorder (all set partitions, both block orders, all preorders on the blocks): 2 states x 1..2 labels, 3 states x 1 label (complete), one 12-edge sub-universe of 3 states x 2 labels. Output size symbolic in 0..|Q| unless the edge set already uses 12 bits (10..21 free bits per query)',
+             'thorough': 'as quick plus the complete 3 states x 2 labels universe (18 edge bits), a fifth 12-edge sub-universe of it, 2 states x 2 labels with parallel edges and partition/preorder, an 18-edge sub-universe of 5 states x 1 label, two further 3 states x 2 labels sub-universes with partition/preorder'},
+  'outside': 'more than 5 states or 3 labels; systems with >= 3 states and >= 2 labels, and with 5 states, only inside the listed sub-universes; edge multiplicity > 2; output sizes larger than the number of states; partitions with empty blocks and block relations that are not reflexive/transitive (excluded by the documented assertions of the engine); row sizes of the shared counters other than 31 (needs > 4000 states)',
   'assumptions': ['the LTS has at least one state and the output size does not exceed the number of states (preconditions asserted by SimulationEngine)'],
   'harnesses': [
     {'name': 'lts', 'src': 'harness/C16/lts.cc', 'tus': ['explicit_lts_sim', 'util'],
